@@ -676,7 +676,8 @@ def ecompass(a: np.ndarray, m: np.ndarray, frame: str = 'ENU', representation: s
     Ry /= np.linalg.norm(Ry)
     R = np.c_[Rx, Ry, Rz].T
     if representation.lower() == 'quaternion':
-        return chiaverini(R)
+        q = shepperd(R)     # chiaverini(R) up to rounding, but also right for half-turns, where sign(0) zeroes its vector part
+        return -q if q[0] < 0 else q
     if representation.lower() == 'rpy':
         phi = np.arctan2(R[1, 2], R[2, 2])    # Roll Angle
         theta = -np.arcsin(R[0, 2])           # Pitch Angle
